@@ -54,9 +54,11 @@ static void cases(int n, int betaInv, bool normalised, vt::rng& g, bool thorough
             for (int x : w) wt.push_back(normalised ? T(x) / T(S) : T(x));
             // data = r^(1/beta), times an exact power of two 2^(e/beta): the result must not depend on e
             int e = (int) g.below(3) * 30 - 30;
-            for (int x : r) { T d = T(x); for (int k = 1; k < betaInv; ++k) d *= T(x); dt.push_back(std::ldexp(d, e * betaInv)); }
+            for (int x : r) { T d = T(x); for (int k = 1; k < betaInv; ++k) d *= T(x); dt.push_back(std::ldexp(d, e * (betaInv ? betaInv : 1))); }
             T m = T(mins[mi][0]) / T(mins[mi][1]);
-            auto v = hep::multi_channel_refine_weights(wt, dt, m, T(1) / T(betaInv));
+            // betaInv = 0 stands for beta = 0: datum^0 = 1 whatever the datum (pow(0, 0) = 1 as well), i.e. the weights are normalised and clamped
+            auto v = hep::multi_channel_refine_weights(wt, dt, m, betaInv ? T(1) / T(betaInv) : T());
+            if (betaInv == 0) r.assign(r.size(), 1);
             vt::ev("RefCase").s("T", vt::type_name<T>::get()).i("betaInv", betaInv).i("norm", normalised ? 1 : 0)
                 .a("w", w).a("r", r).i("mn", mins[mi][0]).i("md", mins[mi][1]).i("dexp", e * betaInv).a("v", scaled(v)).a("zero", zeros(v))
                 .i("fin", all_finite(v) ? 1 : 0).i("inId", vt::ids().id(vt::hexvec(wt))).i("outId", vt::ids().id(vt::hexvec(v)))
@@ -83,7 +85,9 @@ static void init_cases(int n, vt::rng& g)
         std::vector<T> wt;
         for (int x : w) wt.push_back((T) (x * scale));
         T m = T(mins[mi][0]) / T(mins[mi][1]);
-        auto chk = hep::make_multi_channel_chkpt<T>(wt, m, T(0.25));
+        // (the exponent does not enter the initial normalisation)
+        static double const betas[4] = {0.25, 0.0, 1.0, 0.5};
+        auto chk = hep::make_multi_channel_chkpt<T>(wt, m, T(betas[g.below(4)]));
         chk.channels((std::size_t) n);
         auto v = chk.channel_weights();
         vt::ev("InitCase").s("T", vt::type_name<T>::get()).a("w", w).i("mn", mins[mi][0]).i("md", mins[mi][1])
@@ -212,6 +216,7 @@ int main(int argc, char** argv)
         cases<double>(n, 1, false, g, thorough);
         cases<float>(n, 2, true, g, thorough);
         cases<long double>(n, 4, false, g, thorough);
+        if (n <= 3) { cases<double>(n, 0, n % 2 == 0, g, thorough); if (thorough) { cases<float>(n, 0, false, g, true); cases<long double>(n, 0, true, g, true); } }
         if (thorough) { cases<float>(n, 1, false, g, thorough); cases<double>(n, 4, true, g, thorough); cases<long double>(n, 2, true, g, thorough); }
     }
     if (!thorough) { cases<double>(4, 2, true, g, false); }
